@@ -102,6 +102,20 @@ def cases(rng, tier):
         use = " ".join("_ = p%d%s;" % (g, ".a" if "U;" in d else "") for g, (_, d) in enumerate(chosen)) if rng.random() < 0.5 else ""
         lines.append("@compute @workgroup_size(1) fn main() { %s }" % use)
         out.append({"wgsl": "\n".join(lines) + "\n", "family": "lookalike_groups", "opts": {}, "truth": truth})
+    # resource types the generator has no binding for (it panics): every variable still has to be accounted for - a module
+    # the generator returns must have a field and an entry for it
+    for i in range({"quick": 6, "search": 12, "thorough": 30}[tier]):
+        pool = list(NAMES)
+        rng.shuffle(pool)
+        decls = [(g, b, pool.pop(), rng.randrange(len(KINDS))) for g in range(rng.randint(1, 3)) for b in range(rng.randint(1, 2))]
+        lines = ["struct U { a: vec4<f32>, b: f32 }"]
+        g_, b_ = rng.choice([(0, 5), (len({d[0] for d in decls}), 0), (0, 9)])      # in an existing group, or alone in the last group
+        bad = "@group(%d) @binding(%d) %s" % (g_, b_, rng.choice(["var<storage, read_write> counter: atomic<u32>;",
+                                                                   "var table: binding_array<texture_2d<f32>, 4>;"]))
+        body = ["@group(%d) @binding(%d) %s" % (g, b, KINDS[k][0].format(n=n)) for (g, b, n, k) in decls]
+        body.insert(rng.randrange(len(body) + 1), bad)
+        lines += body + ["@compute @workgroup_size(1) fn main() {}"]
+        out.append({"wgsl": "\n".join(lines) + "\n", "family": "unsupported_resource", "opts": {}, "truth": truth_of(decls)})
     # the special families first: they must be among the modules that are compiled and run on the shim
     out.sort(key=lambda c: 0 if c["family"] in ("lookalike_groups", "many_groups") else 1)
     return out
@@ -158,6 +172,9 @@ def verdict_expr(c, r, ir, real):
         ob = "true" if ok else "false"
         if obs.usable(r):
             ob += " && " + coq_obs_clause(r, real)
+    if c["family"] == "unsupported_resource" and r.get("result") == "panic":
+        # not an accepted shader: the property says nothing (the model must agree that the generator gives up)
+        return '[wf %s; agree_res agree_C04 (gen %s ""%%string None %s) %s; true]' % (ir, ir, coq_options(c["opts"]), real)
     return _verdict(c, r, ir, real).replace("OBS", ob)
 
 
